@@ -150,7 +150,9 @@ def job(j):
         elif len(st["cases"]) >= j["max_cases"]:
             raise StopIteration
 
-    res = tlc.run("MC_exec.tla", "MC_exec_sim3.cfg", on_line=on_line, workers=1, simulate=j["behaviours"], depth=40, seed=seed, timeout=1500)
+    # odd jobs: small alphabet with two fragments and @skip / @include (literal and variable) on fields, inline fragments and spreads
+    simcfg = "MC_exec_simd.cfg" if seed % 2 else "MC_exec_sim3.cfg"
+    res = tlc.run("MC_exec.tla", simcfg, on_line=on_line, workers=1, simulate=j["behaviours"], depth=40, seed=seed, timeout=1500)
     w = st["world"]
     eng_cfgs = [{"coercer": counting_coercer}, {"coercer": counting_coercer, "list_conc": False, "field_parent_conc": False}]
     records, meta = [], {}
@@ -186,7 +188,7 @@ def job(j):
     for r in records[:400]:
         if r["resp"]["hasErrors"] and len(samples) < 1 and len(r["nodes"]) >= 5:
             samples.append({"query": meta[r["tid"]]["query"], "response": meta[r["tid"]]["response"], "verdict": verdicts[r["tid"]]})
-    return {"job": j, "tlc": [genrun.tlc_summary("MC_exec_sim.cfg(simulate seed=%d)" % seed, res, exhaustive=False),
+    return {"job": j, "tlc": [genrun.tlc_summary("%s(simulate seed=%d)" % (simcfg, seed), res, exhaustive=False),
                               genrun.tlc_summary("Trace_resp.cfg", tres)],
             "evaluations": len(records), "traces": len(records), "distinct": list(distinct), "samples": samples, "violations": viol}
 
